@@ -36,19 +36,20 @@ theorem accum_invariant (γ : F) (m : OvfMode) (L : ℕ) (hL : SizeOk L) (byDefa
     | err => rw [hstep] at hs; simp at hs
     | panic => rw [hstep] at hs; simp at hs
 
-/-- the initial state is the defining sum over the initially valid set (both modes).
-For `L = 0` with issuance by default the code computes `accum_range(1..=0)`, which swaps the
-reversed range and yields `g'^(1+γ)` rather than the identity; registries of capacity 0 are
-outside the property (`L ≥ 1`), hence the hypothesis. -/
-theorem initial_state_agrees (γ : F) (L : ℕ) (byDefault : Bool) (hL1 : 1 ≤ L) :
+/-- the initial state is the defining sum over the initially valid set (both modes), for every
+capacity `L` including 0 (before the repair in /repo `accum_range(1..=0)` was read as the reversed
+range `0..=1` and a by-default registry of capacity 0 started at `g'^(1+γ)`; found as the
+hypothesis `1 ≤ L` this proof used to need, confirmed on the library with `reg/corpus/9`). -/
+theorem initial_state_agrees (γ : F) (L : ℕ) (byDefault : Bool) :
     initialState ringOps γ L byDefault
       = accOf γ L (if byDefault then Icc 1 L else ∅) := by
   cases byDefault with
   | false => simp [initialState, accOf]
   | true =>
-    simp only [initialState, if_true, accOf]
     by_cases hL : 1 ≤ L
-    · rw [accumRange_spec_le γ 1 L hL]
+    · have hpos : decide (L > 0) = true := by simp; omega
+      simp only [initialState, Bool.true_and, hpos, if_true, accOf]
+      rw [accumRange_spec_le γ 1 L hL]
       -- reflect the index: j ↦ L + 1 - j is an involution of [1, L]
       apply Finset.sum_bij' (fun k _ => L + 1 - k) (fun j _ => L + 1 - j)
       · intro a ha; simp only [mem_Icc] at ha ⊢; omega
@@ -58,19 +59,22 @@ theorem initial_state_agrees (γ : F) (L : ℕ) (byDefault : Bool) (hL1 : 1 ≤ 
       · intro a ha; simp only [mem_Icc] at ha
         have : L + 1 - (L + 1 - a) = a := by omega
         rw [this]
-    · omega
+    · have h0 : L = 0 := by omega
+      subst h0
+      simp [initialState, accOf]
 
-/-- the `L = 0` quirk stated above, as a fact about the model (and, by correspondence, the code) -/
-theorem initial_state_L0_by_default (γ : F) : initialState ringOps γ 0 true = 1 + γ := by
-  simp [initialState, accumRange, accumRangeLoop]
+/-- regression theorem for the repaired `L = 0` case: a by-default registry of capacity 0
+starts at the identity (exponent 0), as the empty valid set demands -/
+theorem initial_state_L0_by_default (γ : F) : initialState ringOps γ 0 true = 0 := by
+  simp [initialState]
 
 /-- from the initial state of either issuance mode -/
-theorem accum_invariant_from_initial (γ : F) (m : OvfMode) (L : ℕ) (hL : SizeOk L) (hL1 : 1 ≤ L)
+theorem accum_invariant_from_initial (γ : F) (m : OvfMode) (L : ℕ) (hL : SizeOk L)
     (byDefault : Bool) (ops : List Op)
     (h : WfHist L byDefault (if byDefault then Icc 1 L else ∅) ops) :
     run ringOps γ m L byDefault (initialState ringOps γ L byDefault) ops
       = .ok (accOf γ L (validAfter (if byDefault then Icc 1 L else ∅) ops)) := by
-  rw [initial_state_agrees γ L byDefault hL1]
+  rw [initial_state_agrees γ L byDefault]
   exact accum_invariant γ m L hL byDefault ops _ h
 
 /-- **path independence**: two protocol-respecting histories reaching the same valid set
